@@ -61,6 +61,11 @@ impl GroupLocalProcessor {
             return false;
         }
 
+        if first_value_count > first.variables_len() {
+            // the extra values would be assigned to the variables of the next statement
+            return false;
+        }
+
         let mut find_variables: FindVariables = first
             .iter_variables()
             .map(|variable| variable.get_name().as_str())
